@@ -1,5 +1,5 @@
 (* C08: concrete witnesses (evaluated inside Coq) *)
-From Boltons Require Import Lib.Prelude Lib.C08_Py Spec.C08_Spec Model.C08_Model Proofs.C08_Tree Proofs.C08_Paths Proofs.C08_Copy.
+From Boltons Require Import Lib.Prelude Lib.C08_Py Spec.C08_Spec Model.C08_Model Check.C08_Check Proofs.C08_Tree Proofs.C08_Paths Proofs.C08_Copy.
 
 (* {'k': [4, (5, 6)], 'j': {7}} *)
 Definition ex_tree : obj :=
@@ -58,6 +58,19 @@ Lemma ex_dag_ok :
   exists m lg, remap None true [] ex_dag = Done
     (ONode 0 KList [(KI 0, ONode 1 KTuple [(KI 0, OLeaf 5)]); (KI 1, ONode 1 KTuple [(KI 0, OLeaf 5)])]) m lg.
 Proof. eexists. eexists. vm_compute. reflexivity. Qed.
+
+(* an observation as the harness records it: [t, t] with t = (5,), a visit that
+   drops nothing and re-keys leaves, research for leaves *)
+Definition ex_case : c08_case :=
+  mkCase ex_dag (Some [(PIsLeaf, Some (Put (Some (KT 1)) None))]) true
+    (Ok (ONode 0 KList [(KI 0, ONode 1 KTuple [(KI 0, OLeaf 5)]); (KI 1, ORef 1 KTuple)]))
+    [([KI 0], KI 0, SLeaf 5); ([], KI 0, SCont KTuple 1); ([], KI 1, SCont KTuple 1)]
+    ex_dag PIsLeaf None false
+    (Ok [([KI 0; KI 0], RLeaf 5, Ok (RLeaf 5))])
+    ex_dag None [([KI 1; KI 0], Ok (RLeaf 5), false)] None.
+Lemma ex_case_ok :
+  imm_backref [] (c_in ex_case) = false /\ agree ex_case = true /\ c08_verdict ex_case = (true, true, false).
+Proof. split; [reflexivity|]. split; vm_compute; reflexivity. Qed.
 
 (* t = (l,), l = [t] *)
 Definition tuple_cycle : obj := ONode 0 KTuple [(KI 0, ONode 1 KList [(KI 0, ORef 0 KTuple)])].
